@@ -1,5 +1,5 @@
 #!/usr/bin/env bash
-# tools/verify_benign.sh <Cxx> <A|B> [extra properties, comma separated]
+# [TAG=benign2] tools/verify_benign.sh <Cxx> <A|B> [extra properties, comma separated]
 # Confirms a behaviour-preserving change delivered by an independent sub-agent in /tmp/benign-<Cxx>-out/<A|B>:
 #   1. its demonstration passes on the unmodified worktree /tmp/benign-<Cxx>
 #   2. with the patch only the test `incidental_difference` fails (the property tests keep passing)
@@ -9,9 +9,9 @@
 set -u
 HERE="$(cd "$(dirname "${BASH_SOURCE[0]}")/.." && pwd)"
 P="$1"; V="$2"; EXTRA="${3:-}"
-WT="/tmp/benign-$P"; OUT="/tmp/benign-$P-out/$V"
+TAG="${TAG:-benign}"; R="${TAG#benign}"; WT="/tmp/$TAG-$P"; OUT="/tmp/$TAG-$P-out/$V"
 lower="$(echo "$P" | tr 'A-Z' 'a-z')_$(echo "$V" | tr 'A-Z' 'a-z')"
-T="benign_demo_$lower"; DEMO="$WT/rust/ommx/tests/$T.rs"
+T="${TAG}_demo_$lower"; DEMO="$WT/rust/ommx/tests/$T.rs"
 cd "$WT" || exit 2
 git checkout -q -- . ; git clean -qfd -e .verif-build -e target; git checkout -q --detach "$(git -C /repo rev-parse HEAD)" 2>/dev/null
 mkdir -p "$WT/rust/ommx/tests"; cp "$OUT/demo.rs" "$DEMO"
@@ -29,7 +29,7 @@ for C in $P ${EXTRA//,/ }; do
   det[$C]="rc=$rc $sigs"
 done
 git checkout -q -- . ; git clean -qfd -e .verif-build -e target
-D="$HERE/benign/$P-$V"; mkdir -p "$D"
+D="$HERE/benign/$P-${R}$V"; mkdir -p "$D"
 cp "$OUT/patch.diff" "$D/patch.diff"; cp "$OUT/demo.rs" "$D/demo.rs"
 detjson="{"; first=1
 for C in "${!det[@]}"; do [ $first = 1 ] || detjson+=","; first=0; detjson+="\"$C\": $(printf '%s' "${det[$C]}" | python3 -c 'import json,sys; print(json.dumps(sys.stdin.read()))')"; done; detjson+="}"
@@ -41,5 +41,5 @@ except Exception as e: m={"agent_meta_unreadable":str(e)}
 m["verified_by_main_session"]={"demo_on_unmodified_tree": plain, "demo_with_patch": patched, "tests_failing_with_patch": failed.split(), "existing_suite_with_patch": suite, "checks_quick_seed1": json.loads(det)}
 json.dump(m,open(dst,"w"),indent=1)
 PY
-echo "BENIGN $P-$V: demo plain [$res_plain] | patched [$res_patched] failing: [$failed] | suite [$suite]"
+echo "BENIGN $P-${R}$V: demo plain [$res_plain] | patched [$res_patched] failing: [$failed] | suite [$suite]"
 for C in "${!det[@]}"; do echo "   check $C: ${det[$C]}" | cut -c1-400; done
